@@ -14,7 +14,7 @@ CHECKS = {
  "C01": ("reference-graph SCC (branch-free cycle) + parameter relevance over the monad packages (AST, go/types)",
          "Structural necessary conditions, decided for every function of the four generated monad packages: the definitional reference graph has no branch-free cycle (a circular definition diverges on all-success inputs), every parameter of every combinator is used, and StateT bodies never reuse a state that was fed to a run (right identity of StateT); a unit function (Pure/Some/Success/Right/Done) never converts its type-parameter argument to an interface, so it cannot treat nil payloads differently (SSA value flow through moves, closures and static calls); every function of a generated monad file uses the same callees as its namesakes in the other monad packages (the derived combinators are copies of one template; 355 compared); the Applicative/Chain builders consult their operands left to right (effect-order summaries, shared with C02); an iterator's next re-establishes the look-ahead through hasNext unconditionally, not as the right operand of || (R-NEXTGUARD over iterator/fp). A violation names the cycle / the parameter / the conversion / the deviating copy.",
          "§4 C01", "the three laws as value equalities; Seq/List/Iterator/Eval/fn0/fn1 instances"),
- "C02": ("structured success-test analysis (continuation/handler classification by type), supplier-deferral rule, recover-handler rule (AST, go/types)",
+ "C02": ("structured success-test analysis (continuation/handler classification by type), supplier-deferral rule, recover-handler rule, loop-exit-on-failure rule for loops applying a Try-valued step function (AST, go/types)",
          "Call-placement clauses decided for every success test of a Try/Option/Either operand in the root package, the monad packages and the folds: no continuation and no iterator pull on the failure side, no handler on the success side, continuations receive a value extracted from the tested operand, a fold stops at the first failed step, short-circuiting functions return the operand itself or a failure built from it alone, recover-style functions return successes untouched; supplier parameters are only invoked inside deferred literals or under a test; the five panic-capturing functions register a recover handler first, which produces a failure carrying the recovered value only when it is non-nil and never type-asserts that value (here or in a helper it is passed to); effect-order summaries (R-EFFORDER): every branch-free or test-guarded combinator consults its monadic operands in declaration order, and the methods of one builder type agree on the order of the receiver's fields and consult them before their arguments; in a fold over a cursor every path from a monadic step result to the next consultation of the cursor passes a test of that result (R-FOLDSTOP); a StateT method never re-runs its receiver from a handler literal (R-RUNONCE); a func() X supplier parameter is mentioned at most once on any path of a combinator (R-SUPPLYONCE).",
          "§4 C02", "invocation counts and global left-to-right order across a whole nested generated expression (effect-order summary not built)"),
  "C03": ("path-sensitive nil-fact dataflow on SSA over Map/Set/immutable types, discarded-update rule, exhaustiveness of node type switches",
@@ -23,16 +23,16 @@ CHECKS = {
  "C04": ("field-sensitive points-to analysis on SSA with interprocedural write/return/invoke summaries and bool-flag guards (E1), builder typestate rule",
          "Proves the stronger 'never writes foreign memory' for every exported function and method of the library outside the mutable surface: no store, append, copy, sort, map update or callee (through interface joins, call-backs and fold-threaded accumulators) writes an object reachable from a parameter, a global or unknown memory; writes guarded by the trie's `mutable` flag count only where true can reach them; builder methods that publish the in-place trie give it up, through a pointer receiver.",
          "§4 C04", "deep-snapshot equality over branching histories as such; user call-backs and user implementations of fp.List/MapBase are assumed not to write"),
- "C05": ("syntactic protocol rules over the status type switches (CAS-only, final, retry, register, deliver), E1 snapshot immutability, nil-fact dataflow, atomic-cell access rule",
+ "C05": ("syntactic protocol rules over the status type switches (CAS-only, final, retry, register, deliver), E1 snapshot immutability, nil-fact dataflow, atomic-cell access rule, at-most-one call-back hand-over per path (go/cfg longest path)",
          "Structural conditions without which some interleaving breaks single assignment / exactly-once delivery: the status cell changes only by CompareAndSwap against the pointer loaded in the same attempt; the completed case never writes; every lost CAS is retried; every case of a registration uses the call-back (invokes it with the completed value or swaps in a value built from the old list and the call-back); the completing CAS returns the captured list and Complete calls every element; no Promise/Future method writes memory it did not allocate (published listener slices are immutable); zero Promise/Future is guarded; the atomic cell is touched only through sync/atomic; between (re)loading the status pointer and swapping against it the status is decoded from that same pointer; every value read from the status cell reaches a type switch / assertion in the same function (R-STATEKIND).",
          "§4 C05", "linearizability over all interleavings (schedules are not enumerated)"),
  "C06": ("must-pass-through on go/cfg, recursively over nested OnComplete/ExecuteUnsafe literals; recover-handler rule",
          "For every promise created by a combinator that returns the derived future (19 sites): every path of the creating function completes the promise or registers a literal every path of which completes it or registers, recursively, one that does; Apply/Apply2 run the user function under a deferred recover that fails the promise with the panic value; nested subscriptions on two Future operands follow declaration order, so a failed earlier operand is reported without waiting for a later one (R-SUBORDER); inside one operand's completion callback another operand is subscribed to only behind a test of the callback's Try (R-FUTSTOP); an OnComplete call-back literal that names its parameter mentions it (R-CBPARAM).",
          "§4 C06", "value equality with the Try-level evaluation, 'never earlier', positional order of Sequence/Traverse"),
- "C09": ("mirrored-accessor-path rule, instance-parameter relevance, hash/eq component-subset rule, hash determinism deny-list (AST, go/types)",
+ "C09": ("mirrored-accessor-path rule, instance-parameter relevance, hash/eq component-subset rule, hash determinism deny-list, no comparable-based instance instantiated at a pointer type (AST, go/types, types.Info.Instances)",
          "Structural conditions of component-wise equality and of hash/eq agreement: every component Eqv/Less/Compare call in eq, hash and ord applies the same accessor path to the two different operands; every instance parameter is used; for every hash.New(E, h) the instances consulted by h are a subset of those E is built from; hash functions (including those of package-level instances) use no unsafe/reflect/uintptr/%p/float bit patterns/map iteration/time/rand and no package-level state shared between callers, and do not single out the nil container unless the equality does; a container equality returns true only where equal sizes are established; an Eq over Go maps looks the other map up with the comma-ok form; the projection handed to ContraMap in eq/hash contains no bounded slice, index or remainder/mask arithmetic (R-CONTRA); a container equality that iterates one operand consults the size of both (R-BOTHSIZES); a pointer parameter of a binary closure is dereferenced only behind a nil test of that parameter (R-PTRDEREF).",
          "§4 C09", "reflexivity/symmetry/transitivity and hash agreement as statements over all values"),
- "C10": ("one-sided-comparison rule (R-LEX), mirrored accessor paths, sort.Interface shape check (AST, go/types)",
+ "C10": ("one-sided-comparison rule (R-LEX), mirrored accessor paths, sort.Interface shape check, operand order of negated strict comparisons in LessEq (AST, go/types)",
          "Structural necessary conditions of a strict total order / ordered permutation: every component Less test that falls through to further components is followed by the mirrored test; component calls use the same accessor path on both operands; every in-module sort.Interface keeps index order, swaps exactly i and j and reports len of the same slice; Compare results are examined by sign only; less functions are strict (no <=, no negated less); binary instances never exchange their operands; R-LEX also covers direct calls of a LessFunc value; a less-based Compare returns a non-zero constant only under the less test of the matching direction (R-TRICHOTOMY); the payload of Option/Try.Unapply is used only behind the success edge of a test of its flag (R-PAYLOAD); a container comparison of package ord returns 0 only under established equal sizes; Min/Max of seq, list and iterator put no made-up value (OrZero/fp.Zero) into a result and the siblings of one name agree on the tie rule of their selection step (R-MINMAX); a pointer parameter of a binary closure of package ord is dereferenced only behind a nil test of that parameter (R-PTRDEREF).",
          "§4 C10", "transitivity/totality of leaf instances; Min/Max semantics as values"),
  "C11": ("operator/identity table over resolved monoid constructions, named-instance binding, discarded-result and fold-argument-role rules (AST, go/types)",
@@ -56,10 +56,10 @@ CHECKS = {
  "C17": ("stale-state (affine use) rule on go/cfg over func(S)(Try,S) literals + parameter relevance",
          "Structural necessary conditions for lawful state threading: in every StateT-shaped literal a state that was fed to a run is never used at a point reachable from that run (handlers, later steps and the returned state see the newest state); every parameter of the statet primitives and of the StateT methods is used; every path from one run to a later run passes a test of the first run's result, or the later step is built from that result (a failed step stops the program); a Try payload is reported as the state only behind the success edge of a test of that Try; a StateT method runs its receiver at most once and never from a handler literal; the statet combinators consult their StateT operands in declaration order.",
          "§4 C17", "the state-monad equations as value equalities"),
- "C18": ("type-directed sanitising rule over clone closures + instance-parameter relevance (AST, go/types)",
+ "C18": ("type-directed sanitising rule over clone closures + instance-parameter relevance, Clone methods never return their argument (AST, go/types)",
          "Structural necessary conditions for deep copies: every component-instance parameter of every clone combinator is used, and in every clone closure each use of the input is cloned through a component instance (Clone call, map with a Clone method value, range, nil/len test) — nothing of the input reaches the result uncloned; a clone closure never returns the address of, or a reference held in, a captured variable (results are fresh per call); every return of a combinator with component instances mentions one of them (R-INSTPATH).",
          "§4 C18", "structural equality incl. nil-vs-empty"),
- "C19": ("must-hold lock dataflow on SSA, E1 snapshot immutability, syntactic single-load and check-then-act rules",
+ "C19": ("must-hold lock dataflow on SSA, E1 snapshot immutability, syntactic single-load and check-then-act rules (direct and through delegating publishers)",
          "Structural conditions of linearizability: every Store on the snapshot cell happens under the map's mutex and every exit releases it; no method (nor a literal handed to copyOnWrite) writes a map loaded from the cell; read-only methods load the snapshot once; a method that reads outside the lock before copyOnWrite re-derives its decision from the literal's own parameter and returns nothing read after the critical section; the snapshot a published value derives from is read under the lock; every operation publishes at most one snapshot (no publishing call in a loop or twice on one path); the innermost condition deciding a Store, if it examines the cell, examines a value read under the lock; a method that publishes through another method returns nothing read from the map after that call; when the critical section can keep the snapshot, the method does not return the value it meant to store.",
          "§4 C19", "linearizability over all interleavings"),
  "C20": ("path-sensitive nil-fact dataflow on SSA (R-NILGUARD), fabricated-return rule, must-hold lock dataflow on SSA",
